@@ -664,7 +664,12 @@ func checkASC(a *aac.AudioSpecificConfig) {
 	if *d != *a {
 		fail("DecodeAudioSpecificConfig", "roundtrip", w+" bytes="+hx.Hex(b), fmt.Sprintf("decoded %+v", *d))
 	}
+	if hygCount++; !bulk || hygCount%4096 == 0 {
+		hygASC(a, b, w) // cross-cutting oracles: hygiene.go
+	}
 }
+
+var hygCount int
 
 func searchASC(r *hx.Rng, n int, thorough bool) {
 	for _, ot := range objTypes {
@@ -698,6 +703,10 @@ func searchASC(r *hx.Rng, n int, thorough bool) {
 			}
 		}
 	}
+	// the readers on arbitrary bytes (hygiene.go)
+	for i := 0; i < 40*n; i++ {
+		hygASCBytes(r.Bytes(r.Intn(9), nil), "arbitrary bytes")
+	}
 }
 
 func checkADTS(h aac.ADTSHeader, junk, rest []byte) {
@@ -719,6 +728,10 @@ func checkADTS(h aac.ADTSHeader, junk, rest []byte) {
 	}
 	if off != len(junk) {
 		fail("DecodeADTSHeader", "offset", w(), fmt.Sprintf("offset %d, sync word is at %d", off, len(junk)))
+	}
+	// cross-cutting oracles (hygiene.go): every case with junk, one in 16 (bulk loops: one in 1024) of the enumerations
+	if hygCount++; len(junk) > 0 || (!bulk && hygCount%16 == 0) || hygCount%1024 == 0 {
+		hygADTS(h, b, w)
 	}
 }
 
@@ -794,6 +807,11 @@ func searchADTS(r *hx.Rng, n int, thorough bool) {
 		l := r.Range(0, 187)
 		j := removeSyncs(r.Bytes(l, junkAlphabet[:r.Range(2, len(junkAlphabet))]))
 		checkADTS(randHeader(r), j, r.Bytes(r.Intn(5), nil))
+	}
+	// the readers on arbitrary bytes (hygiene.go)
+	for i := 0; i < 20*n; i++ {
+		b := r.Bytes(r.Intn(24), junkAlphabet)
+		hygADTSBytes(b, func() string { return "bytes=" + hx.Hex(b) })
 	}
 }
 
@@ -979,28 +997,35 @@ func main() {
 			corrDesc(hx.NewRng(*seed*8+7), *n, thorough)
 		}
 	case "search":
+		hygTablesStart()
 		if *part == "all" || *part == "asc" {
 			searchASC(hx.NewRng(*seed*4+1), *n, thorough)
+			hygTablesEnd("asc")
 			fmt.Fprintf(out, "PART\tasc\t%d\n", evals)
 		}
 		if *part == "all" || *part == "adts" {
 			searchADTS(hx.NewRng(*seed*4+2), *n, thorough)
+			hygTablesEnd("adts")
 			fmt.Fprintf(out, "PART\tadts\t%d\n", evals)
 		}
 		if *part == "all" || *part == "entry" {
 			searchEntry(hx.NewRng(*seed*4+3), *n, thorough)
+			hygTablesEnd("entry")
 			fmt.Fprintf(out, "PART\tentry\t%d\n", evals)
 		}
 		if *part == "all" || *part == "hist" {
 			searchHistory(hx.NewRng(*seed*8+5), *n, thorough)
+			hygTablesEnd("hist")
 			fmt.Fprintf(out, "PART\thist\t%d\n", evals)
 		}
 		if *part == "all" || *part == "streams" {
 			searchStreams(hx.NewRng(*seed*8+6), *n, thorough)
+			hygTablesEnd("streams")
 			fmt.Fprintf(out, "PART\tstreams\t%d\n", evals)
 		}
 		if *part == "all" || *part == "desc" {
 			searchDesc(hx.NewRng(*seed*8+7), *n, thorough)
+			hygTablesEnd("desc")
 			fmt.Fprintf(out, "PART\tdesc\t%d\n", evals)
 		}
 		fmt.Fprintf(out, "EVALS\t%d\n", evals)
